@@ -12,7 +12,7 @@
 #   P1  EcdsaSignature.Pack of real signatures has the fixed width; P2 Unpack(Pack) round-trips and verifies
 # Model side: real output == faithful model (correspondence), model exc_c14n == JDK (the spec transcription is right),
 # top-down form == faithful model, generated documents == the Coq builders, proofs.
-import hashlib, json, os
+import base64, hashlib, json, os
 from vlib.common import Hex, VERIF, run as sh
 
 FP = ["lib/xmldsig:", "lib/x509tools:EcdsaSignature.Pack", "lib/x509tools:.UnpackEcdsaSignature", "lib/appmanifest:", "signers/vsix:"]
@@ -32,6 +32,8 @@ PROVISIONAL = {
     "C19:c14n:attr-value-whitespace-not-normalised": "literal tab/newline in an attribute value is kept (Go encoding/xml does not normalise attribute values); a conforming parser reads a space",
     "C19:c14n:rec-uri-names-inclusive-c14n": "UseRecC14n writes http://www.w3.org/TR/2001/REC-xml-c14n-20010315 (inclusive Canonical XML 1.0) but the exclusive-style algorithm is applied: an unused namespace declaration on Signature changes the declared canonical form, relic still accepts",
     "C19:sign:carriage-return-written-literally": "the signed document is written with etree's default settings, which emit U+000D literally; every XML parser (Go's too) reads it back as U+000A, so a manifest whose signed content contains &#13; yields a signature that nobody, relic included, can verify",
+    "C19:verify:attr-value-with-cdata-end-rejected": "Verify parses the canonical bytes of the Signature element with encoding/xml, which refuses the sequence ]]> although canonical XML leaves > unescaped in attribute values: a signature whose Signature subtree holds such an attribute value (e.g. an Object/Reference URI) is rejected, also by the relic that made it",
+    "C19:sign:attr-whitespace-written-literally": "signed documents are written with etree's default settings, which emit tab and newline literally inside attribute values; a conforming parser reads them as spaces, so the DigestValue relic computed (over &#x9; / &#xA;) is not the digest of the declared canonical form of the document relic emitted",
     "C19:verify:pi-insertion-accepted": "a processing instruction inserted into signed content does not invalidate the signature",
     "C19:sigvalue:ecdsa-short:p521": "ECDSA SignatureValue shorter than 132 bytes for P-521 (Pack sizes r||s by max bit length)",
     "C19:sigvalue:ecdsa-short:p384": "ECDSA SignatureValue shorter than 96 bytes for P-384",
@@ -157,16 +159,22 @@ def run(ctx, replay=None):
             ctx.violation("C19:c14n-error", "SerializeCanonical failed: " + c["err"], {"cases": [c]}, True)
 
     # ------------------------------------------------------------ reference canonicaliser (one JVM per batch)
+    gens = []
+    for s in sigs:
+        for k, g in enumerate(s.get("gen") or []):
+            g["id"] = "gen%d.%d" % (s["id"], k)
+            g["sig"] = s["id"]
+            gens.append(g)
     ref = {}
     jdk_refused = 0
     if jdk.ok:
         try:
-            exc = [c for c in good if not c.get("inclusive")]
-            inc = [c for c in good if c.get("inclusive")]
-            for c, r in zip(exc, jdk.c14n([(c["doc"], c["path"]) for c in exc])):
-                ref[c["id"]] = r
-            for c, r in zip(inc, jdk.c14n([(c["doc"], c["path"]) for c in inc], inclusive=True)):
-                ref[c["id"]] = r
+            reqs = [(c["id"], c["doc"], c["path"], bool(c.get("inclusive"))) for c in good]
+            reqs += [(g["id"], g["ref_doc"], g["ref_path"], bool(g.get("inclusive"))) for g in gens if g.get("ref_doc")]
+            for incl in (False, True):
+                part = [q for q in reqs if q[3] == incl]
+                for q, r in zip(part, jdk.c14n([(q[1], q[2]) for q in part], inclusive=incl)):
+                    ref[q[0]] = r
             jdk_refused = sum(1 for c in good if ref.get(c["id"]) is None)
         except RuntimeError as e:
             ctx.violation("C19:reference-run", str(e)[-300:], {"output": str(e)}, False)
@@ -258,6 +266,53 @@ def run(ctx, replay=None):
     if td_fail:
         ctx.violation("C19:model:top-down-form", "walkD form differs from the faithful model on %d cases" % len(td_fail), {"cases": [td_fail[0]]}, False)
 
+    # ------------------------------------------------------------ documents relic builds: shape and DigestValue
+    def find_text(tree, tag):
+        if tree[0] == 0:
+            if bytes.fromhex(tree[2]).decode() == tag:
+                return b"".join(bytes.fromhex(ch[1]) for ch in tree[4] if ch[0] == 1).decode()
+            for ch in tree[4]:
+                t = find_text(ch, tag)
+                if t is not None:
+                    return t
+        return None
+    n_gen = n_digest = 0
+    hx = lambda t: Hex(t.encode().hex())
+    if st["model_ok"] and gens:
+        vals, todo = [], []
+        cr_sigs = set(s["id"] for s in sigs if b"\r" in bytes.fromhex(s.get("signed") or ""))
+        for g in gens:
+            if g["sig"] in cr_sigs:          # reported as C19:sign:carriage-return-written-literally below
+                continue
+            if g["which"] == 0:
+                r = ref.get(g["id"])
+                if r is None:
+                    continue
+                want = base64.b64encode(hashlib.new(g["hash"], bytes.fromhex(r)).digest()).decode()
+                g["want_digest"] = want
+                got = find_text(g["tree"], "DigestValue")
+                n_digest += 1
+                if got != want and attr_literal_ws(bytes.fromhex(g["ref_doc"])):
+                    finding("C19:sign:attr-whitespace-written-literally", "DigestValue %s, digest of the canonical form a conforming parser derives from the emitted document is %s" % (got, want), {"gen": [g]})
+                    continue
+                if got != want:
+                    # the PROPERTY fails: the signed digest is not the digest of the declared canonical form
+                    ctx.violation("C19:digest-not-of-declared-canonical-form", "DigestValue %s, digest of the %s canonical form of the referenced content is %s" %
+                                  (got, "inclusive" if g.get("inclusive") else "exclusive", want), {"gen": [g]}, True)
+                    continue
+                vals.append([2, [0, hx(g["ref_id"]), hx(g["hash_alg"]), hx(g["sig_alg"]), hx(want), hx(g["c14n_alg"]), tohex(g["tree"])]])
+            else:
+                vals.append([2, [1, [[hx(u), hx(d)] for u, d in g["refs"]], hx(g["hash_alg"]), hx(g["ns_digsig"]), hx(g["fmt"]), hx(g["time"]), tohex(g["tree"])]])
+            todo.append(g)
+        try:
+            for g, r in zip(todo, ctx.run_model(vals)):
+                n_gen += 1
+                if not r[0]:
+                    ctx.violation("C19:generated-doc-shape", "a %s built by relic is not the document the Coq builder describes for the same parameters" %
+                                  ("SignedInfo" if g["which"] == 0 else "VSIX package Object"), {"gen": [g], "broken": "C19.Model.signed_info / vsix_object"}, False)
+        except RuntimeError as e:
+            ctx.violation("C19:model-eval", str(e)[-300:], {"output": str(e)}, False)
+
     # ------------------------------------------------------------ signatures
     n_var = n_alt = n_cr = 0
     siglen_hist = {}
@@ -273,6 +328,9 @@ def run(ctx, replay=None):
                 finding("C19:sign:carriage-return-written-literally", "relic rejects its own %s signature: %s" % (s["kind"], s.get("verify_err")), {"sigs": [light]})
             else:
                 ctx.notes.append("a signed document containing a literal carriage return verified (sig case %s)" % s["id"])
+            continue
+        if not s["verify_ok"] and "unescaped ]]>" in (s.get("verify_err") or ""):
+            finding("C19:verify:attr-value-with-cdata-end-rejected", "relic rejects its own %s signature: %s" % (s["kind"], s.get("verify_err")), {"sigs": [light]})
             continue
         if not s["verify_ok"]:
             ctx.violation("C19:verify:fresh-signature-rejected", "relic rejects its own %s signature: %s" % (s["kind"], s.get("verify_err")), {"sigs": [light]}, True)
@@ -385,7 +443,7 @@ def run(ctx, replay=None):
         "equal_to_reference": n_equal, "diverging_from_reference": n_div, "in_K": n_inK, "wellformed": n_wf,
         "divergences_by_clause": clause_hits, "restyle_pairs": n_restyle,
         "model_mismatches": len(corr_fail), "spec_vs_reference_mismatches": len(spec_fail),
-        "signatures": len(sigs), "signed_documents_with_literal_cr": n_cr, "preserving_variants": n_var, "altering_variants": n_alt, "preserving_variants_confirmed_by_reference": n_pres_checked,
+        "signatures": len(sigs), "generated_docs_compared": n_gen, "digest_values_recomputed_from_reference": n_digest, "signed_documents_with_literal_cr": n_cr, "preserving_variants": n_var, "altering_variants": n_alt, "preserving_variants_confirmed_by_reference": n_pres_checked,
         "signature_value_lengths": siglen_hist,
         "pack_real_signatures": n_real, "pack_short_by_curve": short, "pack_model_cases": pack_corr,
         "provisional_findings": [prov[k] for k in sorted(prov)]})
